@@ -66,6 +66,13 @@ type Item struct {
 	// produced and the one below it through the node's store WHILE the execution layer works, i.e. between
 	// the early save and the final save of the block.  Reads have no effect in the model.
 	Peek bool `json:"peek,omitempty"`
+	// boot and step: what the execution layer hands back WITH a success.  EmptyRoot: InitChain / ExecuteTxs
+	// returns a state root of length 0 (nil or empty, by item parity) - in the model just another root value
+	// (id 0).  MaxB: the maxBytes value returned next to the root: 0 = 1<<20 (the default of every older
+	// replay), -1 = 0, any other value = itself.  The sequencer double does NOT look at the MaxBytes of a
+	// request (a sequencing layer is free not to).
+	EmptyRoot bool  `json:"empty_root,omitempty"`
+	MaxB      int64 `json:"maxb,omitempty"`
 	// stop: SaveCache, then exit; with Crash the process dies after K (0..8) of the eight cache files were
 	// renamed into place (files K.. keep their previous content, a partly written <file K>.tmp stays behind)
 	// tamper (NOT a crash): cache file TornFile is truncated in place by hand
@@ -85,6 +92,38 @@ type Replay struct {
 func RootID(i int) uint64   { return uint64(i) + 1 }
 func CursorID(i int) uint64 { return uint64(i) + 1 }
 
+// EmptyRootID is the id of the root of length 0; RootOf is the id of the root item i hands back.
+const EmptyRootID = uint64(0)
+
+func RootOf(i int, it Item) uint64 {
+	if it.EmptyRoot {
+		return EmptyRootID
+	}
+	return RootID(i)
+}
+
+// rootVal is the root value item i hands back: a 32-byte root, or for EmptyRoot nil / an empty slice
+func rootVal(i int, it Item) []byte {
+	if it.EmptyRoot {
+		if i%2 == 0 {
+			return nil
+		}
+		return []byte{}
+	}
+	return rootBytes(RootID(i))
+}
+
+// MaxBytesOf is the maxBytes value item it hands back next to the root
+func MaxBytesOf(it Item) uint64 {
+	switch {
+	case it.MaxB > 0:
+		return uint64(it.MaxB)
+	case it.MaxB < 0:
+		return 0
+	}
+	return 1 << 20
+}
+
 const baseNano = int64(1_700_000_000) * 1_000_000_000 // the base instant
 const ChainID = "c01-chain"
 
@@ -93,12 +132,18 @@ func timeToMs(t time.Time) int64  { return (t.UnixNano() - baseNano) / 1_000_000
 func nanoToMs(n uint64) int64     { return (int64(n) - baseNano) / 1_000_000 }
 
 func rootBytes(id uint64) []byte {
+	if id == EmptyRootID {
+		return nil
+	}
 	b := make([]byte, 32)
 	copy(b, "root")
 	binary.BigEndian.PutUint64(b[24:], id)
 	return b
 }
 func rootID(b []byte) uint64 {
+	if len(b) == 0 {
+		return EmptyRootID
+	}
 	if len(b) != 32 || string(b[:4]) != "root" {
 		return 999999
 	}
@@ -133,8 +178,12 @@ type Call struct {
 
 type execDouble struct {
 	w        *World
-	initNext []byte // nil = error
-	next     []byte // nil = error
+	initNext []byte // the root InitChain returns (may be of length 0)
+	initFail bool   // InitChain fails
+	initMaxB uint64
+	next     []byte // the root ExecuteTxs returns (may be of length 0)
+	fail     bool   // ExecuteTxs fails
+	maxB     uint64 // the maxBytes ExecuteTxs returns
 	calls    []Call
 	inits    int
 	peek     bool // a concurrent reader looks at the store during this ExecuteTxs
@@ -144,10 +193,10 @@ var _ coreexecutor.Executor = (*execDouble)(nil)
 
 func (e *execDouble) InitChain(ctx context.Context, genesisTime time.Time, initialHeight uint64, chainID string) ([]byte, uint64, error) {
 	e.inits++
-	if e.initNext == nil {
+	if e.initFail {
 		return nil, 0, errors.New("exec double: InitChain failed")
 	}
-	return e.initNext, 1 << 20, nil
+	return e.initNext, e.initMaxB, nil
 }
 func (e *execDouble) GetTxs(ctx context.Context) ([][]byte, error) { return nil, nil }
 func (e *execDouble) ExecuteTxs(ctx context.Context, txs [][]byte, blockHeight uint64, timestamp time.Time, prevStateRoot []byte) ([]byte, uint64, error) {
@@ -155,10 +204,11 @@ func (e *execDouble) ExecuteTxs(ctx context.Context, txs [][]byte, blockHeight u
 	if e.peek {
 		e.w.Or.reader(blockHeight)
 	}
-	if e.next == nil {
+	if e.fail {
 		return nil, 0, errors.New("exec double: ExecuteTxs failed")
 	}
-	return e.next, 1 << 20, nil
+	e.w.Or.executed(blockHeight, rootID(e.next), e.maxB)
+	return e.next, e.maxB, nil
 }
 func (e *execDouble) SetFinal(ctx context.Context, blockHeight uint64) error { return nil }
 
@@ -460,10 +510,7 @@ func (w *World) Run(idx int, it Item) (obs Obs) {
 	switch it.T {
 	case "boot":
 		w.node = nil
-		exec := &execDouble{w: w}
-		if !it.InitErr {
-			exec.initNext = rootBytes(RootID(idx))
-		}
+		exec := &execDouble{w: w, initFail: it.InitErr, initNext: rootVal(idx, it), initMaxB: MaxBytesOf(it)}
 		seq := &seqDouble{w: w}
 		hb, db := &bcast[*types.SignedHeader]{}, &bcast[*types.Data]{}
 		nst := store.New(w.DS)
@@ -491,11 +538,9 @@ func (w *World) Run(idx int, it Item) (obs Obs) {
 		before, _ := w.Store().Height(w.ctx)
 		itc := it
 		nd.seq.next, nd.seq.idx = &itc, idx
-		nd.exec.next = nil
+		w.Or.stepBatch = nil
+		nd.exec.next, nd.exec.fail, nd.exec.maxB = rootVal(idx, it), it.ExecErr, MaxBytesOf(it)
 		nd.exec.peek = it.Peek
-		if !it.ExecErr {
-			nd.exec.next = rootBytes(RootID(idx))
-		}
 		nc, nr, nh, ndat := len(nd.exec.calls), len(nd.seq.reqs), len(nd.hb.got), len(nd.db.got)
 		err := nd.m.VerifPublishBlock(w.ctx)
 		if len(nd.exec.calls) > nc {
@@ -801,7 +846,7 @@ func ItemCoq(idx int, it Item) string {
 		if it.InitErr {
 			a = "ABoot None"
 		} else {
-			a = fmt.Sprintf("ABoot (Some %s)", vgen.N(RootID(idx)))
+			a = fmt.Sprintf("ABoot (Some %s)", vgen.N(RootOf(idx, it)))
 		}
 	case "step":
 		var s string
@@ -813,7 +858,7 @@ func ItemCoq(idx int, it Item) string {
 		default:
 			s = fmt.Sprintf("(SBatch %s %s %s)", txsCoq(it.Txs), vgen.Z(it.Ts), vgen.N(CursorID(idx)))
 		}
-		e := fmt.Sprintf("(EOk %s)", vgen.N(RootID(idx)))
+		e := fmt.Sprintf("(EOk %s)", vgen.N(RootOf(idx, it)))
 		if it.ExecErr {
 			e = "EErr"
 		}
